@@ -695,7 +695,17 @@ pub fn check_encode_feed_poll(timeout: u64, prior: &[Op], r: &PnReport, lsb_firs
             }
         }
     }
-    let enc = ref_encode_pn(r, lsb_first);
+    // the encoding: for carrier 0 what the crate's own encoder produces into RawShortMessage,
+    // otherwise the sequence the property describes (fed through the other implementations)
+    let enc: Vec<(u8, u8, u8)> = if carrier == 0 {
+        use helgoboss_midi::{DataEntryByteOrder, RawShortMessage, ShortMessage};
+        let msg = build_pn(r);
+        let a: [Option<RawShortMessage>; 4] = api(|| msg.to_short_messages(if lsb_first { DataEntryByteOrder::LsbFirst } else { DataEntryByteOrder::MsbFirst }));
+        a.iter().flatten().map(|m| { let b = m.to_bytes(); (b.0, b.1.get(), b.2.get()) }).collect()
+    } else {
+        ref_encode_pn(r, lsb_first)
+    };
+    ensure!(!enc.is_empty(), "encode_feed_poll/empty_encoding", "{:?}", r);
     let mut reported: Vec<PnReport> = Vec::new();
     for (i, (s, cn, v)) in enc.iter().enumerate() {
         set_clock(now);
